@@ -1,5 +1,6 @@
 """C05 - signal objects own their data; analysis functions do not mutate their inputs."""
 import copy
+import itertools
 import os
 import shutil
 import tempfile
@@ -399,7 +400,6 @@ def cross(name, fn, args, opts, cap="vec", count=None, skip=None, **flags):
     """One form per element of the cross product of the optional arguments `opts` = [opt(kw, v1, v2..), ...].  The all-default
     and the 'every option at its first non-default value' corners are *primary* (run in every small-record case); the others
     rotate through the small-record cases and are all enumerated at mid-range sizes."""
-    import itertools
     corner = tuple(vals[1] for _, vals in opts)
     for combo in itertools.product(*[vals for _, vals in opts]):
         kw, labs = {}, []
@@ -604,7 +604,6 @@ def _m(f):
 def _build_forms():
     dtv = {"dt/2.5": V(lambda E: E["dt"] / 2.5), "dt*2.5": V(lambda E: E["dt"] * 2.5), "dt": V(lambda E: E["dt"]),
            "dt/3": V(lambda E: E["dt"] / 3), "dt/2": V(lambda E: E["dt"] / 2)}
-    B = [True, False]  # noqa
 
     # --- sdof
     for nm, fn in (("response_series", sdof.response_series), ("pseudo_response_spectra", sdof.pseudo_response_spectra),
@@ -758,7 +757,7 @@ def _build_forms():
     # --- surface
     reds = [opt("nodal", False), opt("red", L("0.9", 0.9), L("arrays", "arrays")), opt("stt", "$stt"), opt("trim", True), opt("start", True)]
     for nm in ("calc_surface_energy", "calc_cum_abs_surface_energy", "get_time_shift_motions"):
-        cross("surface.%s" % nm, getattr(surface, nm), ("$asig", "$tt"), reds, count="nm", red=True)
+        cross("surface.%s" % nm, getattr(surface, nm), ("$asig", "$tt"), reds, cap="vec2", count="nm", red=True)
         cross("surface.%s(scalar travel time)" % nm, getattr(surface, nm), ("$asig", "$tt0"), [opt("nodal", False), opt("trim", True)])
     cross("surface.trim_to_length", surface.trim_to_length, ("$e2d", "$n", "$tt", "$dt"),
           [opt("trim", True), opt("start", True), opt("s2s_travel_time", "$stt")], count="nm",
@@ -890,7 +889,18 @@ def _same(x, y):
 
 def _check_form(ctx, f, E, how):
     """The purity assertions for one call form.  Returns True when the form was evaluated, False when the library rejected the
-    arguments (raised) - then only 'inputs unchanged' is asserted."""
+    arguments (raised) - then only 'inputs unchanged' is asserted.  The scratch directory of a file-writing form exists only
+    for the duration of its two calls and is removed whatever happens (violation, rejection, harness error)."""
+    if "$tmpfile" in f.args:
+        try:
+            E["tmpfile"]
+            return _check_form_inner(ctx, f, E, how)
+        finally:
+            E.cleanup()
+    return _check_form_inner(ctx, f, E, how)
+
+
+def _check_form_inner(ctx, f, E, how):
     name = f.name
     fn = _resolve(f.fn, E)
     args = tuple(_resolve(x, E) for x in f.args)
@@ -987,12 +997,11 @@ def _pure_one(case, ctx, how):
         for name in names:
             if not _check_form(ctx, FORMS[name], E, how) and not _expected_reject(name):
                 rejected += 1
-        snap0 = E.d.get("_snap0")
     finally:
         E.cleanup()
     ctx.notes["rejected"] = rejected
     if how == "float" and len(np.unique(af)) > 4:  # (constant / two-level records are legitimately rejected by many functions)
-        if rejected > 0.06 * len(names):
+        if rejected > max(4, 0.06 * len(names)):
             raise core.HarnessError("%d of %d call forms raised on a float64 record (builders out of date?)" % (rejected, len(names)))
 
 
@@ -1051,9 +1060,9 @@ def _top(cap, *tag):
 
 
 def _mid_plan(f, tier):
-    """[(n, how), ...] for one call form.  Quick: every form gets at least two mid-range lengths at every seed (float64 and one of
-    int64 / list); the long records (top tenth of the form's affordable range) go to the primary forms and to a hash-chosen third of
-    the others.  Thorough: every form, every rung, every container."""
+    """[(n, how), ...] for one call form.  Quick: every form gets the top tenth of its affordable range as float64 and at least one
+    hash-chosen rung below it as int64 / list at every seed (primary forms: two rungs + a mined length).  Thorough: every form, every
+    rung, every container."""
     s = gen.run_seed()
     cap = CAPS[f.cap][0 if tier == "quick" else 1]
     lo = LADDER_LO.get(f.cap, 2000)
@@ -1072,13 +1081,9 @@ def _mid_plan(f, tier):
         plan = [(top, "float"), (r_up, alts[0]), (r_lo, alts[1])]
         for c in sorted(mined, key=lambda c: _hh(s, "mined", f.name, c))[:1]:
             plan.append((c, "float"))
-    elif _hh(s, "long", f.name) % 3 == 0:
-        plan = [(top, "float"), (r_lo, alts[0])]
     else:
         r2 = rungs[_hh(s, "any", f.name) % len(rungs)]
-        if r2 == r_lo:
-            r2 = rungs[(rungs.index(r_lo) + 1) % len(rungs)]
-        plan = [(r_lo, "float"), (r2, alts[0])]
+        plan = [(top, "float"), (r2, alts[0])]
     # (python lists longer than LIST_MAX samples are not generated: converting them dominates every call)
     return [(min(n, LIST_MAX) if how == "list" else n, how) for n, how in plan]
 
@@ -1119,8 +1124,8 @@ core.enum_clause(CLAUSES, "mid-range", _mid_enum, quick_shards=8,
                       "~2 000 (n x n temporaries) over 6 000 (python loop per sample) to 300 000 samples (vectorised) in the quick tier, 4 000 .. "
                       "1 500 000 in the thorough tier; quick: per form >= 2 lengths at every seed - primary forms (all options default / all "
                       "non-default, object methods, 0-d dt): the top tenth of the range (float64), a rung of the upper half and one of the lower "
-                      "half (int64 / list) + a length aimed at an integer literal of the source; the other members of a cross product: two rungs "
-                      "(float64, int64 / list), the top tenth for a hash-chosen third of them; thorough: 12 rungs + top + mined x 3 containers for "
+                      "half (int64 / list) + a length aimed at an integer literal of the source; the other members of a cross product: the top "
+                      "tenth (float64) and one rung (int64 / list); thorough: 12 rungs + top + mined x 3 containers for "
                       "every form; non-trivial = the form was evaluated (not rejected)",
                  oracle="as pure-functions: arguments bit-for-bit unchanged (snapshot dtype, shape, bytes / list deep copy), no result array shares "
                         "memory with an argument, second call (after the caller scribbled over the first result) returns the same result",
@@ -1134,22 +1139,24 @@ def _count_plan(f, tier):
     s = gen.run_seed()
     quick = tier == "quick"
     if f.count == "loop":   # python loop over the n samples with m-vectors: n stays short
-        budget, n_lo, n_hi = (2e5, 120, 1500) if quick else (4e6, 300, 8000)
+        budget, n_lo, n_hi = (2e5, 120, 1500) if quick else (1.5e6, 200, 6000)
     else:                   # vectorised (m x n) temporaries
-        budget, n_lo, n_hi = (8e5, 300, 20000) if quick else (1.2e7, 300, 200000)
+        budget, n_lo, n_hi = (8e5, 300, 20000) if quick else (4e6, 300, 100000)
     m_top = _top(5000, s, "mtop", f.name)
-    rungs = gen.ladder(40, 4400, 8 if quick else 14, "c05m:" + f.name)
+    rungs = gen.ladder(40, 4400, 8 if quick else (10 if f.primary else 5), "c05m:" + f.name)
     mined = [c for c in gen.mined_sizes(40, 5000, 6, "c05m:" + f.name)]
     alts = ["int", "list"] if _hh(s, "malt", f.name) % 2 else ["list", "int"]
 
-    if quick and not f.primary:
+    if not f.primary:
         budget = budget / 2.5
 
     def n_of(m):
         cap_n = CAPS[f.cap][0 if quick else 1]
         return int(max(n_lo, min(n_hi, cap_n, budget // m)))
     if not quick:
-        return [(m, n_of(m), how) for m in sorted(set(rungs + [m_top] + mined)) for how in ("float", "int", "list")]
+        if f.primary:
+            return [(m, n_of(m), how) for m in sorted(set(rungs + [m_top] + mined)) for how in ("float", "int", "list")]
+        return [(m, n_of(m), how) for m in sorted(set(rungs + [m_top])) for how in ("float", alts[0])]
     r = rungs[_hh(s, "mr", f.name) % len(rungs)]
     if not f.primary:  # (the other members of a cross product: one count each, the top tenth for a hash-chosen third)
         if _hh(s, "mlong", f.name) % 3 == 0:
@@ -1177,9 +1184,9 @@ core.enum_clause(CLAUSES, "mid-range-counts", _count_enum, quick_shards=4,
                  rule="every call form with a *count* dimension (periods of the sdof / spectra functions, shifts, travel times + reduction arrays, "
                       "power-law exponents, target frequencies of the smoothing functions, table rows and query points of the interpolation helpers) "
                       "with that count laddered over 40 .. 5 000 (quick: primary forms the top tenth + a rung + a count aimed at an integer literal "
-                      "of the source, the other members of a cross product one count each - the top tenth for a hash-chosen third; thorough: 14 "
-                      "rungs + top + mined x 3 containers for every form) and the record length chosen so that count x length is ~3e5 .. 8e5 "
-                      "(quick) / 4e6 .. 1.2e7 (thorough); non-trivial = evaluated",
+                      "of the source, the other members of a cross product one count each - the top tenth for a hash-chosen third; thorough: "
+                      "primary forms 10 rungs + top + mined x 3 containers, the others 5 rungs + top x 2 containers) and the record length chosen "
+                      "so that count x length is ~1e5 .. 8e5 (quick) / 6e5 .. 4e6 (thorough); non-trivial = evaluated",
                  oracle="as pure-functions (arguments unchanged, no shared memory, same result when called again)",
                  exhaustive_note="all count-dimension call forms x planned (count, length, container) triples at this seed",
                  min_nontrivial=0.5)(_mid_check)
